@@ -195,6 +195,33 @@ def blocks_to_bytes(
     if isinstance(block_type, Function) and block_type.docstring is not None:
         constants[0] = block_type.docstring
 
+    # First find the args of all instructions, and then of the additional args, so
+    # that the tables are complete and the args have their final values, before
+    # we compute how many code units every instruction takes
+    for block_index, block in enumerate(blocks):
+        for instruction_index, instruction in enumerate(block):
+            args[block_index, instruction_index] = from_arg(
+                instruction.arg,
+                block_type,
+                freevars,
+                names,
+                varnames,
+                cellvars,
+                constants,
+            )
+
+    # Process all additional arg to record their values
+    for arg in additional_args:
+        from_arg(arg, block_type, freevars, names, varnames, cellvars, constants)
+
+    # Now that we know the total number of cellvars, incremement all the freevar
+    # indices by the number of cellvars, for each arg
+    for block_index, block in enumerate(blocks):
+        for instruction_index, instruction in enumerate(block):
+            arg = instruction.arg
+            if isinstance(arg, Freevar):
+                args[block_index, instruction_index] += len(cellvars)
+
     # Iterate through all blocks and change jump instructions to offsets
     while changed_instruction_lengths:
 
@@ -203,19 +230,7 @@ def blocks_to_bytes(
         for block_index, block in enumerate(blocks):
             block_index_to_instruction_offset[block_index] = current_instruction_offset
             for instruction_index, instruction in enumerate(block):
-                if (block_index, instruction_index) in args:
-                    arg_value = args[block_index, instruction_index]
-                else:
-                    arg_value = from_arg(
-                        instruction.arg,
-                        block_type,
-                        freevars,
-                        names,
-                        varnames,
-                        cellvars,
-                        constants,
-                    )
-                    args[block_index, instruction_index] = arg_value
+                arg_value = args[block_index, instruction_index]
                 n_instructions = instruction._n_args_override or _instrsize(arg_value)
                 current_instruction_offset += n_instructions
         # Then go and update all the jump instructions. If any of them
@@ -249,18 +264,6 @@ def blocks_to_bytes(
                     ):
                         changed_instruction_lengths = True
                     args[block_index, instruction_index] = new_arg_value
-
-    # Process all additional arg to record their values
-    for arg in additional_args:
-        from_arg(arg, block_type, freevars, names, varnames, cellvars, constants)
-
-    # Now that we know the total number of cellvars, incremement all the freevar
-    # indices by the number of cellvars, for each arg
-    for block_index, block in enumerate(blocks):
-        for instruction_index, instruction in enumerate(block):
-            arg = instruction.arg
-            if isinstance(arg, Freevar):
-                args[block_index, instruction_index] += len(cellvars)
 
     # Finally go assemble the bytes and the line mapping
     bytes_: list[int] = []
